@@ -121,8 +121,8 @@ def _symmetry(ctx, P):
     ok = False
     if len(ers) == 1 and ers[0].loops:
         lp = ers[0].loops[-1]
-        ok = loop_range_key(lp, rsub) == "each(it.GetTx().vin)" and loop_is_total(lp) and not in_loop_guards(ers[0], lp) and \
-            xkey(call_args(ers[0].expr)[0], site_subst(rsub, ers[0])) == "each(it.GetTx().vin).prevout" and not [g for g in ers[0].guards if g.kind not in ("post",)]
+        ok = index_loop(lp, rsub)[0] == "it.GetTx().vin" and loop_is_total(lp) and not in_loop_guards(ers[0], lp) and \
+            xkey(call_args(ers[0].expr)[0], site_subst(rsub, ers[0])) == "each(it.GetTx().vin).prevout" and not [g for g in ers[0].guards if g.kind not in ("post", "loop")]
     ctx.ob("removeUnchecked/spends", "PROVENANCE", "removeUnchecked erases the spend of every input of the removed entry from mapNextTx (complete loop, unconditional)", ok,
            ers[0].where if ers else rem.where)
     er = sites(rem, lambda e: callee(e) and callee(e).endswith("::erase") and show(call_obj(e)) == "mapTx", P)
